@@ -1,9 +1,172 @@
+import RsslVerif.Model.ConstEvalWf
 import RsslVerif.Driver.Util
-/-! Line-protocol front end of the C13 model (stub until the model is built). -/
+/-! Line-protocol front end of the C13 model: `C13.eval <ir s-expression> [src:...]`. -/
 namespace RsslVerif.Driver.C13
+open RsslVerif.Gen.EvalTable RsslVerif.Model.ConstEval RsslVerif.Driver
+
+def tokens (s : String) : List String :=
+  let rec go (cs : List Char) (cur : List Char) (acc : List String) : List String :=
+    let flush := if cur.isEmpty then acc else String.ofList cur.reverse :: acc
+    match cs with
+    | [] => flush.reverse
+    | '(' :: r => go r [] ("(" :: flush)
+    | ')' :: r => go r [] (")" :: flush)
+    | ' ' :: r => go r [] flush
+    | c :: r => go r (c :: cur) acc
+  go s.toList [] []
+
+def hexNat? (s : String) : Option Nat :=
+  if s.isEmpty then none else
+  s.toList.foldl (fun acc c => do let a ← acc; let d ← hexDigit? c; pure (a * 16 + d)) (some 0)
+
+def int? (s : String) : Option Int :=
+  if s.startsWith "-" then (s.drop 1).toString.toNat?.map (fun n => -(n : Int)) else s.toNat?.map (fun n => (n : Int))
+
+def parseConst (fuel : Nat) (s : String) : Option Constant :=
+  match fuel with
+  | 0 => none
+  | fuel + 1 =>
+    if s.startsWith "fl" then (hexNat? (s.drop 2).toString).map .floatLit else
+    let r := (s.drop 1).toString
+    match s.toList.head? with
+    | some 'b' => if r == "1" then some (.bool true) else if r == "0" then some (.bool false) else none
+    | some 'L' => (int? r).map .intLit
+    | some 'i' => (int? r).map .int32
+    | some 'u' => (int? r).map .uint32
+    | some 'I' => (int? r).map .int64
+    | some 'U' => (int? r).map .uint64
+    | some 'h' => (hexNat? r).map .float16
+    | some 'f' => (hexNat? r).map .float32
+    | some 'd' => (hexNat? r).map .float64
+    | some 's' => if r.isEmpty then some .string else none
+    | some 'E' =>
+      match r.splitOn ":" with
+      | id :: rest@(_ :: _) => do
+        let id ← id.toNat?
+        let inner ← parseConst fuel (":".intercalate rest)
+        pure (.enum id inner)
+      | _ => none
+    | _ => none
+
+def scalar? : String → Option Scalar
+  | "bool" => some .Bool
+  | "lit" => some .IntLiteral
+  | "int" => some .Int32
+  | "uint" => some .UInt32
+  | "flit" => some .FloatLiteral
+  | "half" => some .Float16
+  | "float" => some .Float32
+  | "double" => some .Float64
+  | _ => none
+
+def enumTy? (s : String) : Option (Nat × Scalar) :=
+  if s.startsWith "enum" then
+    match (s.drop 4).toString.splitOn ":" with
+    | [id, u] => do pure (← id.toNat?, ← scalar? u)
+    | _ => none
+  else none
+
+def ty? (s : String) : Option Ty :=
+  if s == "other" then some .other else
+  match scalar? s with
+  | some sc => some (.scalar sc)
+  | none => (enumTy? s).map fun (id, u) => .enum id u
+
+def sizeTy? (s : String) : Option SizeTy :=
+  if s == "other" then some .other else
+  match scalar? s with
+  | some sc => some (.scalar sc)
+  | none => (enumTy? s).map fun (_, u) => .enum u
+
+def op? (s : String) : Option Op := Op.all.find? (fun o => o.name == s)
+
+def optConst? (s : String) : Option (Option Constant) :=
+  if s == "-" then some none else (parseConst 8 s).map some
+
+mutual
+def parseExpr (fuel : Nat) (ts : List String) : Option (Expr × List String) :=
+  match fuel with
+  | 0 => none
+  | fuel + 1 =>
+    match ts with
+    | "(" :: "lit" :: c :: ")" :: r => (parseConst 8 c).map fun c => (.lit c, r)
+    | "(" :: "var" :: c :: ")" :: r => (optConst? c).map fun c => (.var c, r)
+    | "(" :: "gl" :: c :: ")" :: r => (optConst? c).map fun c => (.global c, r)
+    | "(" :: "ev" :: id :: c :: ")" :: r => do
+      let id ← id.toNat?
+      let c ← parseConst 8 c
+      pure (.enumValue id c, r)
+    | "(" :: "sizeof" :: t :: ")" :: r => (sizeTy? t).map fun t => (.sizeOf t, r)
+    | "(" :: "other" :: ")" :: r => some (.other, r)
+    | "(" :: "cast" :: t :: r => do
+      let t ← ty? t
+      let (e, r) ← parseExpr fuel r
+      match r with
+      | ")" :: r => pure (.cast t e, r)
+      | _ => none
+    | "(" :: "op" :: o :: r => do
+      let o ← op? o
+      let (args, r) ← parseArgs fuel r
+      pure (.op o args, r)
+    | _ => none
+def parseArgs (fuel : Nat) (ts : List String) : Option (Args × List String) :=
+  match fuel with
+  | 0 => none
+  | fuel + 1 =>
+    match ts with
+    | ")" :: r => some (.nil, r)
+    | _ => do
+      let (e, r) ← parseExpr fuel ts
+      let (rest, r) ← parseArgs fuel r
+      pure (.cons e rest, r)
+end
+
+def parseTree (s : String) : Option Expr :=
+  let ts := tokens s
+  match parseExpr (ts.length + 1) ts with
+  | some (e, []) => some e
+  | _ => none
+
+def hexPad (width n : Nat) : String :=
+  let rec digits (fuel n : Nat) (acc : List Char) : List Char :=
+    match fuel with
+    | 0 => acc
+    | fuel + 1 => digits fuel (n / 16) (hexNibble (n % 16) :: acc)
+  String.ofList (digits width n [])
+
+def showConst : Constant → String
+  | .bool b => if b then "b1" else "b0"
+  | .intLit v => "L" ++ toString v
+  | .int32 v => "i" ++ toString v
+  | .uint32 v => "u" ++ toString v
+  | .int64 v => "I" ++ toString v
+  | .uint64 v => "U" ++ toString v
+  | .floatLit b => "fl" ++ hexPad 16 b
+  | .float16 b => "h" ++ hexPad 8 b
+  | .float32 b => "f" ++ hexPad 8 b
+  | .float64 b => "d" ++ hexPad 16 b
+  | .string => "s"
+  | .enum id c => "E" ++ toString id ++ ":" ++ showConst c
+
+def showRes : Res → String
+  | .ok c => showConst c
+  | .error .notConst => "notconst"
+  | .error (.panic m) => "panic:" ++ m
+  | .error .stuck => "unsupported: table entry the model cannot interpret"
 
 def handle (op : String) (args : List String) : String :=
-  let _ := (op, args)
-  "unsupported-op"
+  match op, args with
+  | "C13.eval", tree :: _ =>
+    match parseTree tree with
+    | some e => showRes (eval e)
+    | none => "bad-request"
+  | "C13.hyp", tree :: _ =>
+    -- the hypotheses of `consteval_agrees` / `consteval_no_panic`, evaluated on a tree the type checker emitted
+    match parseTree tree with
+    | some e => "wf=" ++ (if wfE e then "1" else "0") ++ " kinds=" ++ (if kindsOk e then "1" else "0")
+    | none => "bad-request"
+  | "C13.pos", _ => "unsupported: positions are judged by the reference evaluator only"
+  | "C13.src", _ => "unsupported: front-end outcome, outside the evaluator model"
+  | _, _ => "unsupported-op"
 
 end RsslVerif.Driver.C13
